@@ -13,8 +13,6 @@ CONSTANTS
   Hi = 100
   Step = 1
   RbfDepth = 4
-  PeerDepth = 2
-  PeerWide = TRUE
   TightCap = FALSE
 INVARIANTS Synced TxInvariants
 CHECK_DEADLOCK FALSE
